@@ -56,14 +56,14 @@ def witnessValue : Node :=
 
 /-- **Dichotomy on the value-typed expression fields, at the current tree**: either no element
 field is encoded by the default rules (then the table says nothing is lost there), or some are and
-the `from` expression of an assignment element does not survive `marshalKids`/`parseKids`: what
-comes back for it is an empty informal expression. -/
+the FORMAL `from` expression `1+1` of an assignment element does not survive
+`marshalFields`/`parseKids`: what comes back for it is an informal expression with empty text. -/
 theorem current_value_fields_dichotomy :
     valueExprFields T = [] ∨
     (valueExprFields T ≠ [] ∧
       (parseKids T T.rootDecls (elemFields T Bpmn.Gen.C15.tyAssignment)
         (marshalFields T id (elemFields T Bpmn.Gen.C15.tyAssignment) witnessValue.kids)).map
-          (fun l => l.map (fun p => p.2.ty)) = some [T.informalTy, T.informalTy]) := by
+          (fun l => l.map (fun p => (p.2.ty, p.2.text))) = some [(T.informalTy, "")]) := by
   first
     | exact Or.inl (by decide +kernel)
     | exact Or.inr ⟨by decide +kernel, by decide +kernel⟩
